@@ -90,6 +90,9 @@ type Op struct {
 	Msg     string        `json:"msg,omitempty"`
 	Details int           `json:"details,omitempty"`
 	Name    string        `json:"name,omitempty"` // sync point
+	// Shared: the handler passes one long-lived metadata value (the same map in every RPC of the
+	// run, as an application does with a package-level "common headers" value) instead of a copy.
+	Shared bool `json:"shared,omitempty"`
 }
 
 // RPCSpec scripts one RPC on both ends.
@@ -272,10 +275,11 @@ type Env struct {
 	Log  *OpLog
 	Quit chan struct{}
 
-	mu    sync.Mutex
-	specs map[string]*RPCSpec
-	syncs map[string]chan struct{}
-	wg    sync.WaitGroup
+	mu     sync.Mutex
+	specs  map[string]*RPCSpec
+	syncs  map[string]chan struct{}
+	shared map[string]metadata.MD
+	wg     sync.WaitGroup
 	// Identity is what handlers of a given serving instance report
 	Panics []string
 	// Anomaly, if set, receives violations that the actors detect themselves.
@@ -287,6 +291,26 @@ func NewEnv() *Env {
 	e := &Env{Quit: make(chan struct{}), specs: map[string]*RPCSpec{}, syncs: map[string]chan struct{}{}}
 	e.Log = &OpLog{seq: &e.Seq, start: time.Now()}
 	return e
+}
+
+// appMD returns the metadata value a handler passes to the library for an op: a fresh copy, or
+// (Op.Shared) the run's one long-lived value with that content.
+func (e *Env) appMD(op Op) metadata.MD {
+	if !op.Shared {
+		return op.MD.Copy()
+	}
+	e.mu.Lock()
+	defer e.mu.Unlock()
+	if e.shared == nil {
+		e.shared = map[string]metadata.MD{}
+	}
+	k := op.K + "/" + mdString(op.MD)
+	md := e.shared[k]
+	if md == nil {
+		md = op.MD.Copy()
+		e.shared[k] = md
+	}
+	return md
 }
 
 func (e *Env) syncChan(name string) chan struct{} {
@@ -550,25 +574,25 @@ func (s *svcImpl) runHandlerOps(spec *RPCSpec, actor string, ops []Op, hio *hand
 			log.call(rec)
 			if op.Name == "ctx" {
 				// the grpc package-level helpers go through the ServerTransportStream in the context
-				log.ret(rec, grpc.SetHeader(hio.ctx, op.MD.Copy()))
+				log.ret(rec, grpc.SetHeader(hio.ctx, env.appMD(op)))
 			} else {
-				log.ret(rec, hio.setHeader(op.MD.Copy()))
+				log.ret(rec, hio.setHeader(env.appMD(op)))
 			}
 		case "sendhdr":
 			rec.MD = op.MD
 			log.call(rec)
 			if op.Name == "ctx" {
-				log.ret(rec, grpc.SendHeader(hio.ctx, op.MD.Copy()))
+				log.ret(rec, grpc.SendHeader(hio.ctx, env.appMD(op)))
 			} else {
-				log.ret(rec, hio.sendHeader(op.MD.Copy()))
+				log.ret(rec, hio.sendHeader(env.appMD(op)))
 			}
 		case "settrl":
 			rec.MD = op.MD
 			log.call(rec)
 			if op.Name == "ctx" {
-				_ = grpc.SetTrailer(hio.ctx, op.MD.Copy())
+				_ = grpc.SetTrailer(hio.ctx, env.appMD(op))
 			} else {
-				hio.setTrailer(op.MD.Copy())
+				hio.setTrailer(env.appMD(op))
 			}
 			log.ret(rec, nil)
 		case "ret":
